@@ -425,6 +425,30 @@ Definition plan_create (co : copts) : option mem * result * list event :=
     | (_, Err e, evs) => (None, Err e, evs)
     end.
 
+(* the options of CreateContainer, applied in the order given to the defaults
+   (random ID, capacity 48, time now); the clock reading and the random bytes
+   are inputs *)
+Inductive copt :=
+| CODeterministic                       (* OptCreateDeterministic: nil ID, zero time *)
+| COWithID (id : list byte)             (* OptCreateWithID *)
+| COWithTime (t : Z)                    (* OptCreateWithTime *)
+| COWithLaunch (l : list byte)          (* OptCreateWithLaunchScript *)
+| COWithCapacity (n : Z)                (* OptCreateWithDescriptorCapacity *)
+| COWithDescriptors (dis : list dinput). (* OptCreateWithDescriptors (appends) *)
+
+Definition apply_copt (co : copts) (o : copt) : copts :=
+  match o with
+  | CODeterministic => mkCO (co_launch co) nil_uuid (co_cap co) zero_time (co_dis co)
+  | COWithID id => mkCO (co_launch co) id (co_cap co) (co_time co) (co_dis co)
+  | COWithTime t => mkCO (co_launch co) (co_id co) (co_cap co) t (co_dis co)
+  | COWithLaunch l => mkCO l (co_id co) (co_cap co) (co_time co) (co_dis co)
+  | COWithCapacity n => mkCO (co_launch co) (co_id co) n (co_time co) (co_dis co)
+  | COWithDescriptors dis => mkCO (co_launch co) (co_id co) (co_cap co) (co_time co) (co_dis co ++ dis)
+  end.
+
+Definition resolve_copts (opts : list copt) (now : Z) (rnd : list byte) : copts :=
+  fold_left apply_copt opts (mkCO [] rnd default_capacity now []).
+
 (* ---------- delete ---------- *)
 
 (* zero(): Seek(Offset) then CopyN of Size zero bytes (no Write when Size = 0) *)
